@@ -55,7 +55,7 @@ def install_counting_future():
 
 class ConnHarness:
     VARS = ("free", "highest", "inflight", "reqs", "orphans", "srv", "st", "rid", "got", "errs", "cps", "pages", "cperr",
-            "defunct", "closed")
+            "defunct", "closed", "writable")
     current = None
     DSE_V1 = 65
 
@@ -192,6 +192,12 @@ class ConnHarness:
         f = self.futures[r]
         self.world.fire(f._timer, advance=False)
 
+    def act_SocketBusy(self, r, rid):
+        self.conn._socket_writable = False          # what the libev reactor does when its write buffer is full
+
+    def act_SocketWritable(self, r, rid):
+        self.conn._socket_writable = True
+
     def act_SocketError(self, r, rid):
         self.conn.socket_error()
 
@@ -266,7 +272,7 @@ class ConnHarness:
             "free": tuple(c.request_ids), "highest": c.highest_request_id, "inflight": c.in_flight,
             "reqs": reqs, "orphans": frozenset(c.orphaned_request_ids), "srv": srv, "st": st, "rid": rid,
             "got": got, "errs": dict(self.errs), "cps": cps, "pages": pages, "cperr": cperr,
-            "defunct": bool(c.is_defunct), "closed": bool(c.is_closed),
+            "defunct": bool(c.is_defunct), "closed": bool(c.is_closed), "writable": bool(c._socket_writable),
         }
 
     def shutdown(self):
@@ -288,7 +294,7 @@ def spec_view(state):
         "srv": frozenset(tuple(m) for m in state["srv"]), "st": fn(state["st"]), "rid": fn(state["rid"]),
         "got": {k: frozenset(v) for k, v in fn(state["got"]).items()}, "errs": fn(state["errs"]),
         "cps": fn(state["cps"]), "pages": fn(state["pages"]), "cperr": fn(state["cperr"]),
-        "defunct": state["defunct"], "closed": state["closed"],
+        "defunct": state["defunct"], "closed": state["closed"], "writable": state["writable"],
     }
 
 
@@ -336,7 +342,7 @@ def _post(p, reqs):
         "got": [sorted(p["got"][r]) for r in reqs], "errs": [p["errs"][r] for r in reqs],
         "cps": sorted([i, r] for i, r in p["cps"].items()), "pages": [p["pages"][r] for r in reqs],
         "cperr": [p["cperr"][r] for r in reqs],
-        "defunct": p["defunct"], "closed": p["closed"],
+        "defunct": p["defunct"], "closed": p["closed"], "writable": p["writable"],
     }
 
 
@@ -374,6 +380,8 @@ def record(constants, rng, max_events=40, p_fail=0.04):
                         else:
                             ops.append(("Respond", p))
                             ops.append(("Respond", p))
+                if rng.random() < 0.08:
+                    ops.append(("SocketWritable" if not c._socket_writable else "SocketBusy", None))
                 npend = len(c._requests)
                 if rng.random() < p_fail * (1 + 4 * max(0, npend - 1)):       # fail more often when several are pending
                     ops = [(rng.choice(["SocketError", "Close"]), None)]
@@ -392,7 +400,7 @@ def record(constants, rng, max_events=40, p_fail=0.04):
                     ev["q"] = int(p.req["query"].split()[1])
                     ev["last"] = last
                     h._page(ev["id"], last)
-                elif op in ("SocketError", "Close"):
+                elif op in ("SocketError", "Close", "SocketBusy", "SocketWritable"):
                     getattr(h, "act_" + op)(None, -1)
                 else:
                     ev["r"] = arg
